@@ -55,6 +55,8 @@ class Hooks:
             return
         key = tuple(float(g) for g in gam)
         job = self.jobmap.get(key)
+        if job is None and all(g == 0 for g in key):
+            job = 'neutral'        # Cache1D's extra evaluation at gamma = 0 (in the parent, after the workers are done)
         sim.seam('model.eval')
         n = self.evals.get(key, 0)
         self.evals[key] = n + 1
@@ -215,6 +217,8 @@ def gen_cfg(s, mode, real_frac=0.0):
     if mode == 'fault' and njobs and (cfg['cpus'] or cfg['cpu_count']) > 1 and not cfg['gpus'] and s.chance(0.08):
         # F6: the k-th Process.start() fails (fork: EAGAIN) after earlier workers are already running
         cfg['faults'].append({'kind': 'F6start', 'job': None, 'nth': s.randrange(cfg['cpus'] or cfg['cpu_count'])})
+    elif mode == 'fault' and njobs and cache == '1D' and s.chance(0.12) and 0.0 not in cfg['additional_gammas']:
+        cfg['faults'].append({'kind': 'F1', 'job': 'neutral', 'exc': s.choice(F1_KINDS), 'nth': s.randrange(len(cfg['model']['pts']))})
     elif mode == 'fault' and njobs:
         jobs = owned_jobs(cfg)
         if jobs:
@@ -770,13 +774,14 @@ def gen_quad_case(s, real_frac=0.0):
     n1, n2 = s.choice(PDF1), s.choice(PDF2)
     gpos = s.choice([a for a in add if a > 0] or [add[0]])
     q = {'pdf1': n1, 'params1': p1(n1), 'pdf2': n2, 'params2': p2(n2), 'theta': s.choice([1.0, 2.5, 1e3, 0.3]),
-         'gpos': gpos, 'gpos_missing': 3.21, 'ppos': s.uniform(0.01, 0.6), 'ppos2': s.uniform(0.01, 0.39),
-         'rho': s.uniform(0, 1), 'p2d': s.uniform(0.05, 0.95),
-         'vourlaki': [s.uniform(0.5, 3.0), None, s.uniform(0, 1), gpos, s.uniform(0, 1), s.uniform(0, 1)],
+         'gpos': gpos, 'gpos_missing': 3.21, 'ppos': 0.0 if s.chance(0.08) else s.uniform(0.01, 0.6), 'ppos2': s.uniform(0.01, 0.39),
+         'rho': s.choice([0.0, 1.0]) if s.chance(0.15) else s.uniform(-0.95, 0.95), 'p2d': s.choice([0.0, 1.0]) if s.chance(0.15) else s.uniform(0.05, 0.95),
+         'vourlaki': [s.uniform(0.5, 3.0), None] + [(s.choice([0.0, 1.0]) if s.chance(0.3) else s.uniform(0, 1)) for _ in range(1)] + [gpos]
+                     + [(s.choice([0.0, 1.0]) if s.chance(0.3) else s.uniform(0, 1)) for _ in range(2)],
          'mix_ok': mix_ok, 'uncached_gpos': s.choice([1.21, 2.7]), 'two_pdf_params': [s.uniform(0.6, 3.0), s.uniform(0.6, 3.0)]}
     q['vourlaki'][1] = mean / q['vourlaki'][0]
     # which clauses to evaluate (2-D exterior integrals are slow: a subset per case)
-    q['clauses'] = sorted(s.sample(['int1', 'int1_noext', 'two_pdfs', 'pp1', 'pp1_uncached', 'int2', 'int2_noext', 'pp2', 'spp2',
+    q['clauses'] = sorted(s.sample(['int1', 'int1_noext', 'two_pdfs', 'pp1', 'pp1_uncached', 'int2', 'int2_seq', 'int2_noext', 'pp2', 'spp2',
                                     'mix', 'mix_spp', 'mix_pp', 'vourlaki', 'index_errors', 'pdfs'], s.randint(4, 7)))
     return {'c1': c1, 'c2': c2, 'q': q}
 
@@ -789,7 +794,7 @@ def quad_case(case, stream):
     from checks import c17_quad as Q
     viol, probes = [], {}
     c1, c2, q = case['c1'], case['c2'], case['q']
-    need2 = any(c in q['clauses'] for c in ('int2', 'int2_noext', 'pp2', 'spp2', 'mix', 'mix_spp', 'mix_pp', 'vourlaki', 'index_errors'))
+    need2 = any(c in q['clauses'] for c in ('int2', 'int2_seq', 'int2_noext', 'pp2', 'spp2', 'mix', 'mix_spp', 'mix_pp', 'vourlaki', 'index_errors'))
     o1, s1, _, _ = simulate(c1, stream=R.Stream(stream.u64()))
     if o1['outcome'] != 'returned':
         return [('quad-cache-build', '1D build: %s' % o1)], probes
@@ -887,6 +892,17 @@ def quad_case(case, stream):
                     probes['corner_mass_2d'] = float(sum(info['corners']))
                     if c2['model']['kind'] == 'stub_const':
                         probes['W_minus_1_2d'] = info['w_in'] + sum(info['edges']) + sum(info['corners']) - 1.0
+            elif cl == 'int2_seq':
+                # one 2-D cache, the same bivariate pdf with symmetric and with asymmetric parameter values of equal length, in
+                # both orders: nothing decided for one parameter vector may be reused for the next
+                m0 = math.log(q['two_pdf_params'][0] + 0.2)
+                seqs = {'biv_lognormal': [[m0, m0, 0.9, 0.9, 0.3], [m0, m0 + 0.8, 0.9, 1.6, 0.3]],
+                        'biv_ind_gamma': [[1.5, 1.5, 0.7, 0.7], [1.5, 2.5, 0.7, 0.2]]}[n2]
+                for order in (seqs, seqs[::-1], seqs):
+                    for pv in order:
+                        ref, tol, info = Q.ref2d(rc2, pv, n2, theta, True)
+                        got = call(s2.integrate, list(pv), None, f2, theta, None)
+                        chk('int2_seq', got, ref, tol, 'pdf=%s%r in a sequence of symmetric/asymmetric parameter vectors' % (n2, pv))
             elif cl == 'pp2':
                 pars = list(P2) + [q['ppos'], q['gpos'], q['ppos2'], c2['additional_gammas'][0]]
                 ref, tol, info = Q.ref_point_pos_2d(rc2, pars, n2, theta, q['rho'])
